@@ -7,7 +7,9 @@ import (
 	"encoding/json"
 	"fmt"
 	"sort"
+	"strings"
 	"sync"
+	"testing/synctest"
 
 	"verifharness/sched"
 	"verifharness/trace"
@@ -30,6 +32,10 @@ type csOp struct {
 type csScenario struct {
 	Kind    string   `json:"kind"` // mutex | rw
 	Clients [][]csOp `json:"clients"`
+	// M2: the clients run their programs (acquire/release pairs only) freely in parallel on several Ps,
+	// no park points: the only way to contend the mutexes' INTERNAL state lock (a TryHoldLock there
+	// fails only then). Judged with the interval reading of CsyncP (cfg fine) plus the final probe.
+	Burst bool `json:"burst,omitempty"`
 }
 
 type csLock interface {
@@ -85,6 +91,7 @@ type csDriver struct {
 	stackW []*csHold
 	stackR []*csHold
 	all    []*csHold
+	burst  bool
 	lastQ  string
 }
 
@@ -96,7 +103,36 @@ func genCsync(x *sched.Exec) csScenario {
 	if r.Intn(3) == 0 {
 		sc.Kind = "mutex"
 	}
+	if strings.Contains(Opt, "burst") {
+		sc.Burst = true
+		for i, n := 0, 3+r.Intn(3); i < n; i++ {
+			var prog []csOp
+			for a, na := 0, 6+r.Intn(10); a < na; a++ {
+				w := sc.Kind == "mutex" || r.Intn(2) == 0
+				op := csOp{Op: "trylock", W: w}
+				if r.Intn(3) == 0 {
+					op.Op, op.C = "lock", true // (cancelled at teardown if still blocked, so that the final probe runs)
+				}
+				prog = append(prog, op, csOp{Op: "rel", K: len(prog)})
+			}
+			sc.Clients = append(sc.Clients, prog)
+		}
+		return sc
+	}
 	n := 2 + r.Intn(3)
+	if r.Intn(8) == 0 {
+		// the sync.Locker adaptor shared by all clients: Lock/Unlock pairs only (a Locker's Unlock may be
+		// overtaken by the next holder's Lock: hand-over inside the adaptor)
+		for i := 0; i < n; i++ {
+			var prog []csOp
+			for a, na := 0, 1+r.Intn(2); a < na; a++ {
+				w := sc.Kind == "mutex" || r.Intn(2) == 0
+				prog = append(prog, csOp{Op: "llock", W: w}, csOp{Op: "lunlock", W: w})
+			}
+			sc.Clients = append(sc.Clients, prog)
+		}
+		return sc
+	}
 	for i := 0; i < n; i++ {
 		var prog []csOp
 		nacq := 1 + r.Intn(3)
@@ -148,6 +184,9 @@ func genCsync(x *sched.Exec) csScenario {
 
 func (d *csDriver) blockedIDs() []int {
 	out := []int{}
+	if d.burst {
+		return out
+	}
 	for _, c := range d.cl {
 		if c.inflight != 0 && d.x.Blocked(c.c) {
 			out = append(out, c.inflight)
@@ -185,9 +224,10 @@ func (d *csDriver) acquired(c *csClient, pi int, id int, w bool, rel func()) *cs
 	}
 	nr, nw := d.nr, d.nw
 	d.all = append(d.all, h)
+	// (logged under the same lock: in a free-running burst the counters then follow the log order)
+	d.x.Log(trace.E{"ev": "ret", "id": id, "xid": h.xid, "res": "ok", "nr": nr, "nw": nw, "actor": c.c.Name})
 	d.mu.Unlock()
 	c.holds[pi] = h
-	d.x.Log(trace.E{"ev": "ret", "id": id, "xid": h.xid, "res": "ok", "nr": nr, "nw": nw, "actor": c.c.Name})
 	return h
 }
 
@@ -202,8 +242,8 @@ func (d *csDriver) release(h *csHold, who string) {
 			d.nr--
 		}
 	}
-	d.mu.Unlock()
 	d.x.Log(trace.E{"ev": "relcall", "id": h.id, "xid": h.xid, "first": first, "actor": who})
+	d.mu.Unlock()
 	h.rel()
 	d.x.Log(trace.E{"ev": "relret", "id": h.id, "actor": who})
 }
@@ -319,7 +359,6 @@ func (d *csDriver) Run(x *sched.Exec, raw json.RawMessage) json.RawMessage {
 	if len(x.Sched) > 0 {
 		fine = x.OptParkUnl && !x.LogSteps && x.Sched[0] == "!parkunl"
 	}
-	x.Log(trace.E{"ev": "cfg", "fine": fine})
 	var sc csScenario
 	if raw != nil {
 		if err := json.Unmarshal(raw, &sc); err != nil {
@@ -328,6 +367,8 @@ func (d *csDriver) Run(x *sched.Exec, raw json.RawMessage) json.RawMessage {
 	} else {
 		sc = genCsync(x)
 	}
+	d.burst = sc.Burst
+	x.Log(trace.E{"ev": "cfg", "fine": fine || sc.Burst})
 	out, _ := json.Marshal(sc)
 	rw := sc.Kind == "rw"
 	if rw {
@@ -371,7 +412,25 @@ func (d *csDriver) Run(x *sched.Exec, raw json.RawMessage) json.RawMessage {
 		x.Log(trace.E{"ev": "quiet", "blk": blk, "xblk": d.blockedXIDs()})
 		d.lastQ = fmt.Sprint(blk, x.T.Seq())
 	}
-	x.Loop(moves, observe, 80)
+	if sc.Burst {
+		x.Policy = func(*sched.Actor, string, string, any) bool { return false } // hooks never park
+		for _, c := range x.Clients {
+			prog := c.Prog
+			c.Prog = nil
+			x.Issue(c, func() {
+				for _, op := range prog {
+					op.Do()
+				}
+			})
+		}
+		x.Labels = append(x.Labels, "burst")
+		synctest.Wait()
+		// everything has returned or is durably blocked: an exact quiescent observation
+		d.burst = false
+		x.Log(trace.E{"ev": "quiet", "blk": d.blockedIDs(), "xblk": d.blockedXIDs()})
+	} else {
+		x.Loop(moves, observe, 80)
+	}
 
 	x.Log(trace.E{"ev": "teardown"})
 	// teardown: everything runs freely from here on
